@@ -146,7 +146,19 @@ def is_pretty(st):
     return st[0] == "if" and re.sub(r"\s+", "", st[1]) == "pretty"
 
 
-def classify(stmts, where):
+ARG_RE = {"imports": r"%sInitImports\(([^()]*)\);\\n", "memories": r"%sInitMemories\(([^()]*)\);\\n", "tables": r"%sInitTables\(([^()]*)\);\\n",
+          "globals": r"%sInitGlobals\(([^()]*)\);\\n", "start": r"\(([^()]*)\);\\n"}
+CALL_ARGS = {}            # (writer function, step) -> [argument text] of the emitted call; filled by classify
+
+
+def record_args(fname, step, lits, where):
+    m = re.fullmatch(ARG_RE[step], lits)
+    if not m:
+        raise ExtractFail(where, "emitted call of step `%s` has an unexpected shape `%s`" % (step, lits[:60]))
+    CALL_ARGS[(fname, step)] = [a.strip() for a in m.group(1).split(",")]
+
+
+def classify(stmts, where, fname=None):
     """[(step, None)] for emitted text inside one guard / at top level"""
     steps = []
     pending_start = False
@@ -169,11 +181,13 @@ def classify(stmts, where):
             if not re.fullmatch(r"\((?:i|child)\);\\n", lits):
                 raise ExtractFail(where, "start function call has an unexpected argument list `%s`" % lits)
             steps.append("start")
+            record_args(fname, "start", lits, where)
             pending_start = False
             continue
         hit = [s for k, s in STEP_OF if k in lits]
         if hit:
             steps.append(hit[0])
+            record_args(fname, hit[0], lits, where)
         elif any(b in lits for b in BOOKKEEPING) or lits == "}\\n\\n":
             continue
         else:
@@ -192,10 +206,10 @@ def steps_of(src, fname, path):
             continue
         if st[0] == "if":
             g = parse_guard(st[1], where)
-            for s in classify(split_statements(st[2], where), where):
+            for s in classify(split_statements(st[2], where), where, fname):
                 out.append((g, s))
         else:
-            for s in classify([st], where):
+            for s in classify([st], where, fname):
                 out.append((["always"], s))
     names = [s for _, s in out]
     if sorted(set(names)) != sorted(names):
@@ -242,6 +256,34 @@ def call_shape(src, path):
     return {"memAlloc": ["min", "max"], "tableAlloc": ["min", "max"]}
 
 
+REF = {"i": "self", "child": "child", "self": "self", "NULL": "null"}
+
+
+def call_arguments(path):
+    """Which instance every emitted call initialises.  Instantiate: all calls on `i`, InitMemories' parent NULL, the resolver its own
+    parameter.  NewChild: the instance argument of every call (`child` / `self`), InitMemories' parent, the resolver taken from self."""
+    I, N = "wasmCWriteInstantiateFunction", "wasmCWriteNewChildFunction"
+    want_i = {"imports": ["i", "resolveImports"], "memories": ["i", "NULL"], "tables": ["i"], "globals": ["i"], "start": ["i"]}
+    for step, want in want_i.items():
+        got = CALL_ARGS.get((I, step))
+        if got != want:
+            raise ExtractFail(path, "%s: call of step `%s` has arguments %r, expected %r" % (I, step, got, want))
+    target, extra = {}, {}
+    for step in ("imports", "memories", "tables", "globals", "start"):
+        got = CALL_ARGS.get((N, step))
+        if not got or got[0] not in ("child", "self"):
+            raise ExtractFail(path, "%s: call of step `%s` has arguments %r" % (N, step, got))
+        target[step] = got[0]
+        extra[step] = got[1:]
+    if extra["imports"] != ["self->common.resolveImports"]:
+        raise ExtractFail(path, "%s: InitImports is not given self->common.resolveImports: %r" % (N, extra["imports"]))
+    if len(extra["memories"]) != 1 or extra["memories"][0] not in ("self", "child", "NULL"):
+        raise ExtractFail(path, "%s: InitMemories parent argument %r" % (N, extra["memories"]))
+    if extra["tables"] or extra["globals"] or extra["start"]:
+        raise ExtractFail(path, "%s: unexpected extra arguments %r" % (N, extra))
+    return target, REF[extra["memories"][0]]
+
+
 def lean_list(xs):
     return "[" + ", ".join(xs) + "]"
 
@@ -249,12 +291,14 @@ def lean_list(xs):
 def generate(repo):
     path = os.path.join(repo, "w2c2", "c.c")
     src = strip_comments(open(path).read())
+    CALL_ARGS.clear()
     inst = steps_of(src, "wasmCWriteInstantiateFunction", "w2c2/c.c")
     child = steps_of(src, "wasmCWriteNewChildFunction", "w2c2/c.c")
     dg = {"memories": definition_guard(src, "wasmCWriteInitMemories", "w2c2/c.c"),
           "tables": definition_guard(src, "wasmCWriteInitTables", "w2c2/c.c"),
           "globals": definition_guard(src, "wasmCWriteInitGlobals", "w2c2/c.c")}
     call_shape(src, "w2c2/c.c")
+    target, mem_parent = call_arguments("w2c2/c.c")
 
     def steps(xs):
         return lean_list("(%s, .%s)" % (lean_list("." + a for a in g), s) for g, s in xs)
@@ -275,6 +319,19 @@ def generate(repo):
     out.append("")
     out.append("/-- `wasmCWriteNewChildFunction` -/")
     out.append("def newChildSteps : List (List GuardAtom × InitStep) :=\n  " + steps(child))
+    out.append("")
+    out.append("/-- an instance argument of a call emitted into `<module>NewChild(self)` (`child` = the calloc'd new instance) -/")
+    out.append("inductive InstRef | child | self | null")
+    out.append("  deriving DecidableEq, Repr, Inhabited")
+    out.append("")
+    out.append("/-- `wasmCWriteNewChildFunction`: the instance each emitted call initialises (its first argument); InitImports is given")
+    out.append("    `self->common.resolveImports`.  (`wasmCWriteInstantiateFunction`: every call is on `i`, InitMemories' parent is NULL — checked by the extractor.) -/")
+    out.append("def newChildTarget : InitStep → InstRef")
+    for st in ("imports", "memories", "tables", "globals", "start"):
+        out.append("  | .%s => .%s" % (st, target[st]))
+    out.append("")
+    out.append("/-- second argument (`parent`) of the InitMemories call emitted into `<module>NewChild` -/")
+    out.append("def newChildMemParent : InstRef := .%s" % mem_parent)
     out.append("")
     out.append("/-- guard under which the definition of each Init* function is emitted -/")
     out.append("def initDefinitionGuard : InitStep → List GuardAtom")
